@@ -11,7 +11,7 @@ from hypothesis.stateful import RuleBasedStateMachine, initialize, rule
 
 ID = 'C14'
 RULE = ('RuleBasedStateMachine histories over {push(key,item), read, read-and-mutate-snapshot} on HeapDict(k), '
-        'k in 0..8, keys {0,1,"a","b",2.5}, item families {small ints with repeats, wide ints, tuples, floats, '
+        'k in 0..8 or {256,257,300} (filled by bulk pushes), keys {0,1,"a","b",2.5}, item families {small ints with repeats, wide ints, tuples, floats, '
         'objects defining only __lt__}; after every step get_result() is compared with the sorted-list model. '
         'Plus generated search inputs (both searches): len <= n_designs, scores non-increasing. '
         'Non-trivial history = some key received more than k pushes including an item smaller than everything '
@@ -94,6 +94,15 @@ class Runner:
         cur.append(score)
         self.real.push(key, make_item(self.family, score, self.n))
         self.compare('after-push')
+      elif op[0] == 'bulk':
+        key = KEYS[op[1]]
+        cur = self.model.setdefault(key, [])
+        for i in range(op[4]):
+          score = (op[2] * i + op[3]) % 211
+          self.n += 1
+          cur.append(score)
+          self.real.push(key, make_item(self.family, score, self.n))
+        self.compare('after-bulk-push')
       elif op[0] == 'read':
         a = self.compare('read')
         b = self.compare('re-read')
@@ -169,8 +178,10 @@ def machine(tier, sink):
       super().__init__()
       self.r = None
       self.done = False
+      from vmm import core
+      core.arm()
 
-    @initialize(k=st.integers(0, 8), family=st.sampled_from(FAMILIES))
+    @initialize(k=st.sampled_from(list(range(9)) * 3 + [256, 257, 300]), family=st.sampled_from(FAMILIES))
     def init(self, k, family):
       self.r = Runner(k, family)
       self.wide = family == 'wide'
@@ -191,6 +202,12 @@ def machine(tier, sink):
         self.r.step(['push', key, sc * (37 if self.wide else 1)])
         self._after()
 
+    @rule(key=st.integers(0, len(KEYS) - 1), a=st.sampled_from([1, 7, 13, 37]), b=st.integers(0, 50), n=st.integers(150, 400))
+    def push_bulk(self, key, a, b, n):
+      # a long run of pushes under one key (capacities in the hundreds only fill up this way)
+      self.r.step(['bulk', key, a, b, n])
+      self._after()
+
     @rule()
     def read(self):
       self.r.step(['read'])
@@ -202,6 +219,8 @@ def machine(tier, sink):
       self._after()
 
     def teardown(self):
+      from vmm import core
+      core.disarm()
       if self.r is not None and not self.done:
         self.done = True
         sink(self.r.spec(), self.r.outcome())
@@ -220,8 +239,9 @@ def strategy(tier):
   @st.composite
   def _s(draw):
     base = draw(st.one_of(G.search_spec(max_geos=6, min_geos=3, constraint_p=0.25),
-                          G.search_spec(max_geos=6, min_geos=3, constraint_p=0.2, elig_style='none')))
-    base['params']['n_designs'] = draw(st.sampled_from([1, 2, 3, 5, 10, 50]))
+                          G.search_spec(max_geos=6, min_geos=3, constraint_p=0.2, elig_style='none'),
+                          G.search_spec(max_geos=6, min_geos=6, constraint_p=0.0, elig_style='none')))
+    base['params']['n_designs'] = draw(st.sampled_from([1, 2, 3, 5, 10, 50, 300, 257]))
     return {'search': base}
   return _s()
 
